@@ -216,6 +216,7 @@ class Engine(ExprMixin, ExprMixin2, StmtMixin, LoopMixin, CallMixin, CompMixin, 
         if extra is None:
             return
         saved = (f.env, f.status)
+        f.ghost = dict(f.ghost, final_env=dict(f.env))        # the locals at the end of the path, for property-specific obligations
         f.env = {n.lstrip("*"): entry.env[n.lstrip("*")] for n, _, _ in c.params}
         f.status = "run"
         try:
